@@ -19,14 +19,61 @@ FAULTS = {"stores_input": "LibraryValuesStable", "returns_internal": "LibraryVal
           "returns_input": "NoForeignWrite"}
 
 
+
+# ------------------------------------------------------------------------------------------------ inventory
+EXCLUDED = [
+    ("hybrid/subtle.(ECPublicKey).ScalarBaseMult", "method promoted from the embedded crypto/elliptic.Curve of the standard library; no Tink code behind it"),
+    ("hybrid/subtle.(ECPublicKey).ScalarMult", "method promoted from the embedded crypto/elliptic.Curve of the standard library; no Tink code behind it"),
+    ("hybrid/subtle.KEMKey.Kem", "KEMKey values are produced only by the unexported ECIESHKDFSenderKem.encapsulate; no exported operation takes or returns one"),
+    ("hybrid/subtle.KEMKey.SymmetricKey", "as KEMKey.Kem; the symmetric key reaches caller code only through EciesAEADHKDFDEMHelper.GetAEADOrDAEAD, which is in the table"),
+]
+
+
+def write_table(listing, path):
+    """Developer action (VERIF_C19_WRITE_TABLE=1): regenerate OwnershipInventory.tla from the driver's target listing."""
+    q = lambda x: '"%s"' % x
+    out = ["--------------------------- MODULE OwnershipInventory ---------------------------",
+           "(* The inventory of C19: every operation kind (target) the ownership check exercises,   *)",
+           "(* with its shape (ci = byte slices / byte-carrying messages a constructor takes, ui/uo  *)",
+           "(* = a use takes / returns, ao = the accessors return) and the public operations of      *)",
+           "(* tink-go it covers.  The check extracts, with go/types, every exported function, method *)",
+           "(* and struct field of a non-internal package whose type mentions []byte,                 *)",
+           "(* secretdata.Bytes or a proto message carrying bytes, and requires                        *)",
+           "(*      extracted  \\subseteq  Ops \\cup ExcludedOps                                         *)",
+           "(* (an operation in the code but not here is a coverage hole: exit 2), that the driver's   *)",
+           "(* target table equals Targets, and that every operation of Ops was executed.              *)",
+           "(* Generated from `c19 -list` (VERIF_C19_WRITE_TABLE=1), reviewed and committed.           *)",
+           "EXTENDS Integers, FiniteSets", "", "Targets == {"]
+    rows = []
+    for t in listing:
+        ops = ", ".join(q(o) for o in t["ops"])
+        rows.append("  [t |-> %s, ci |-> %d, ui |-> %d, uo |-> %d, ao |-> %d, cost |-> %d,\n   ops |-> {%s}]" % (
+            q(t["target"]), t["shape"][0], t["shape"][1], t["shape"][2], t["shape"][3], t["cost"], ops))
+    out.append(",\n".join(rows))
+    out += ["}", "", "(* operations of the extracted API that are deliberately not exercised, with the reason *)", "Excluded == {"]
+    out.append(",\n".join("  [op |-> %s,\n   why |-> %s]" % (q(o), q(w)) for o, w in EXCLUDED))
+    out += ["}", "", "Ops == UNION {x.ops : x \\in Targets}", "ExcludedOps == {e.op : e \\in Excluded}", "",
+            "(* which shape classes occur (the plan is generated for exactly these) *)",
+            "Bit(n) == IF n > 0 THEN 1 ELSE 0",
+            "ShapeClassesUsed == {[ci |-> Bit(x.ci), ui |-> Bit(x.ui), uo |-> Bit(x.uo), ao |-> Bit(x.ao)] : x \\in Targets}", "",
+            "InventoryOK ==",
+            "  /\\ \\A x \\in Targets : x.ops # {} \\/ x.ci + x.ui + x.uo + x.ao = 0",
+            "  /\\ \\A x, y \\in Targets : x.t = y.t => x = y",
+            "  /\\ ExcludedOps \\cap Ops = {}",
+            "================================================================================", ""]
+    open(path, "w").write("\n".join(out))
+
 # ------------------------------------------------------------------------------------------------ plan
-def make_plan(ctx, shapes, steps, path):
-    """All maximal schedules of every shape class of the inventory, written by TLC (Plan_Ownership)."""
+def make_plan(ctx, steps, path):
+    """All maximal schedules of every shape class of the inventory, written by TLC (Plan_Ownership); the same run
+    exports the inventory table of the specification.  Returns (number of schedules, targets, excluded)."""
     raw = os.path.join(ctx.scratch, "plan-raw.ndjson")
-    r = ctx.tlc("Plan_Ownership", env=dict(VERIF_STEPS=steps, VERIF_PLAN=raw), workers=1)
+    invp = os.path.join(ctx.scratch, "inventory.json")
+    r = ctx.tlc("Plan_Ownership", env=dict(VERIF_STEPS=steps, VERIF_PLAN=raw, VERIF_INVENTORY=invp), workers=1)
     if not r.ok:
         raise vlib.Infra("Plan_Ownership: %s" % (r.error or r.summary()))
     ctx.add_states(r)
+    inv = json.loads(open(invp).readline())
     by = {}
     nlines = 0
     for x in open(raw):
@@ -35,25 +82,57 @@ def make_plan(ctx, shapes, steps, path):
             sh = "%d,%d,%d,%d" % (o["shape"]["ci"], o["shape"]["ui"], o["shape"]["uo"], o["shape"]["ao"])
             by.setdefault(sh, []).append(o["steps"])
             nlines += 1
-    if nlines != r.distinct - 16:
-        raise vlib.Infra("Plan_Ownership: %d schedules written, %d states" % (nlines, r.distinct))
+    if nlines != r.distinct - len(by):
+        raise vlib.Infra("Plan_Ownership: %d schedules written, %d states, %d shape classes" % (nlines, r.distinct, len(by)))
     total = 0
     key = lambda h: json.dumps(h, sort_keys=True)
     with open(path, "w") as out:
-        for sh in sorted(shapes):
-            hs = by.get(sh, [])
+        for sh in sorted(by):
+            hs = by[sh]
             pref = set()
             for h in hs:
                 for i in range(1, len(h)):
                     pref.add(key(h[:i]))
             mx = [h for h in hs if key(h) not in pref]
-            if not mx:
-                raise vlib.Infra("no schedule for shape class %s" % sh)
             for h in mx:
                 out.write(json.dumps(dict(shape=sh, steps=h)) + "\n")
             total += len(mx)
             ctx.stage("R:plan %s" % sh, schedules=len(hs), maximal=len(mx), max_steps=steps)
-    return total
+    return total, inv["targets"], inv["excluded"]
+
+
+def check_inventory(ctx, drv, spec_targets, spec_excluded):
+    """extracted API  within  table + exclusions;  driver targets == table.  Anything else: exit 2."""
+    inv = ctx.go_build("c19inv")
+    repo = os.environ.get("VERIF_REPO", vlib.REPO)
+    r = ctx.run([inv, "-repo", repo])
+    extracted = [x.split()[0] for x in r.stdout.splitlines() if x.strip()]
+    if len(extracted) < 300:
+        raise vlib.Infra("API extraction found only %d operations" % len(extracted))
+    listing = [json.loads(x) for x in ctx.run([drv, "-list"]).stdout.splitlines() if x.strip()]
+    if os.environ.get("VERIF_C19_WRITE_TABLE") == "1":
+        write_table(listing, os.path.join(vlib.SPEC, "sys", "OwnershipInventory.tla"))
+        raise vlib.Infra("OwnershipInventory.tla rewritten from the driver's listing; review the diff and run again")
+    ops = set(o for t in spec_targets for o in t["ops"])
+    excl = set(e["op"] for e in spec_excluded)
+    holes = sorted(o for o in set(extracted) if o not in ops and o not in excl)
+    if holes:
+        raise vlib.Infra("coverage hole: %d operation(s) of the public API exchange byte slices but are neither in the inventory "
+                         "table of OwnershipInventory.tla nor on its exclusion list: %s" % (len(holes), ", ".join(holes[:40])))
+    stale = sorted(e for e in excl if e not in extracted)
+    if stale:
+        raise vlib.Infra("exclusion list names operations that no longer exist: %s" % stale)
+    want = {t["t"]: ((t["ci"], t["ui"], t["uo"], t["ao"]), sorted(t["ops"]), t["cost"]) for t in spec_targets}
+    have = {t["target"]: (tuple(t["shape"]), sorted(t["ops"]), t["cost"]) for t in listing}
+    if want != have:
+        diff = sorted(set(want) ^ set(have)) or sorted(k for k in want if want[k] != have[k])
+        raise vlib.Infra("the driver's targets differ from the inventory table of the specification (e.g. %s); "
+                         "bring OwnershipInventory.tla up to date (VERIF_C19_WRITE_TABLE=1)" % diff[:8])
+    ctx.stage("inventory", extracted_operations=len(extracted), covered=len(set(extracted) & ops), excluded=len(excl),
+              targets=len(listing), operations_in_table=len(ops))
+    ctx.log("inventory: %d operations extracted from the code, %d in the table, %d excluded, %d targets"
+            % (len(extracted), len(set(extracted) & ops), len(excl), len(listing)))
+    return listing, ops
 
 
 def validate_collect(ctx, trace, stage, shards=16):
@@ -226,21 +305,19 @@ def run(ctx):
             j.result()
     drv = ctx.go_build("c19")
     for f in os.listdir(os.path.join(vlib.VERIF, "evidence", "replays")):      # stale replay files of earlier runs of this check
-        if f.startswith("C19-%d-" % ctx.seed) and not (ctx.replay and os.path.basename(ctx.replay) == f):
+        if f.startswith("C19-%d-" % ctx.seed) and not ctx.replay:
             os.remove(os.path.join(vlib.VERIF, "evidence", "replays", f))
     if ctx.replay:
         trace = os.path.join(ctx.scratch, "replay.ndjson")
         ctx.run([drv, "-out", trace, "-replay", ctx.replay])
         judge(ctx, trace, "T:replay")
         return
-    # ---------------- inventory
-    listing = [json.loads(x) for x in ctx.run([drv, "-list"]).stdout.splitlines() if x.strip()]
-    shapes = sorted(set(",".join(str(min(1, v)) for v in t["shape"]) for t in listing))
-    # ---------------- (R) plan
+    # ---------------- (R) plan + inventory
     steps = 6 if ctx.thorough else 4
     plan = os.path.join(ctx.scratch, "plan.ndjson")
-    nplan = make_plan(ctx, shapes, steps, plan)
-    ctx.log("plan: %d maximal schedules over %d shape classes (<= %d steps)" % (nplan, len(shapes), steps))
+    nplan, spec_targets, spec_excluded = make_plan(ctx, steps, plan)
+    listing, table_ops = check_inventory(ctx, drv, spec_targets, spec_excluded)
+    ctx.log("plan: %d maximal schedules (<= %d steps)" % (nplan, steps))
     trace = os.path.join(ctx.scratch, "c19.ndjson")
     limits = ["-max1", "400", "-max2", "40"] if ctx.thorough else ["-max1", "20", "-max2", "3"]
     nproc = 12
@@ -257,6 +334,9 @@ def run(ctx):
             executed |= set(x.strip() for x in open(out + ".cover") if x.strip())
             os.remove(out)
     ctx.log("driver: %d operations of the inventory executed" % len(executed))
+    never = sorted(table_ops - executed)
+    if never:
+        raise vlib.Infra("operations of the inventory table that no scenario executed: %s" % never[:20])
     mism, n, lines = judge(ctx, trace, "T:schedules on real objects")
     nsc = sum(1 for x in lines if '"ev":"reset"' in x)
     ctx.cov["traces_validated_against_impl"] += nsc
